@@ -78,7 +78,8 @@ impl Prop for LspSpectrum {
             0 => t.urange(2, 5),
             _ => t.urange(2, 24),
         };
-        let gain = t.log_uniform(0.3, 3.0);
+        // incl. the exact identity values (K = 1, log gain 0) and other exactly representable gains
+        let gain = if t.chance(0.2) { *t.pick(&[1.0, 0.5, 2.0, 0.25]) } else { t.log_uniform(0.3, 3.0) };
         let mut lsp = vec![if use_log_gain { gain.ln() } else { gain }];
         lsp.extend(gen_lsp(t, m));
         Case { rate, alpha, stage, use_log_gain, lsp }
@@ -145,6 +146,7 @@ impl Prop for LspSpectrum {
         rep.class(format!("stage:{}", c.stage));
         rep.class(if (c.lsp.len() - 1) % 2 == 0 { "order:even" } else { "order:odd" });
         rep.class_if(c.use_log_gain, "log-gain");
+        rep.class_if(gain == 1.0, "unit-gain");
         rep.class_if(c.alpha == 0.0, "alpha=0");
         Ok(rep)
     }
